@@ -458,7 +458,14 @@ impl Gen {
         let mut m = self.inst_valid();
         let n = self.rng.below(4);
         for _ in 0..n {
-            match self.rng.below(14) {
+            match self.rng.below(15) {
+                14 => {
+                    // a bid rate without its account
+                    m.bid_fee_account = None;
+                    if m.bid_fee_rate.is_none() {
+                        m.bid_fee_rate = Some("0.02".into());
+                    }
+                }
                 0 => m.name = "".into(),
                 1 => m.base_denom = "".into(),
                 2 => m.supported_quote_denoms = vec![],
